@@ -12,6 +12,7 @@ import (
 	pboutput "github.com/streamingfast/substreams/storage/execout/pb"
 	"github.com/streamingfast/substreams/storage/store/marshaller"
 	pbstore "github.com/streamingfast/substreams/storage/store/marshaller/pb"
+	"google.golang.org/protobuf/encoding/protowire"
 	"google.golang.org/protobuf/proto"
 	"google.golang.org/protobuf/types/known/timestamppb"
 	"pgregory.net/rapid"
@@ -31,6 +32,15 @@ type c18Item struct {
 	Sec     int64    `json:"sec,omitempty"`
 	Nanos   int32    `json:"nanos,omitempty"`
 	Cursor  sdsl.Bin `json:"cursor,omitempty"`
+	// Unknown: fields of a newer schema (numbers 6..40), as the standard encoder writes them back
+	Unknown []c18Unknown `json:"unknown,omitempty"`
+}
+
+type c18Unknown struct {
+	Num    int      `json:"num"`
+	Varint bool     `json:"varint"`
+	V      uint64   `json:"v,omitempty"`
+	B      sdsl.Bin `json:"b,omitempty"`
 }
 
 type c18OutCase struct {
@@ -105,6 +115,18 @@ func genC18Out(t *rapid.T) c18OutCase {
 		if rapid.IntRange(0, 2).Draw(t, "hascursor") == 0 {
 			it.Cursor = sdsl.Bin(genUTF8(t, "cursor"))
 		}
+		if rapid.IntRange(0, 3).Draw(t, "hasunknown") == 0 {
+			nu := rapid.IntRange(1, 3).Draw(t, "nunknown")
+			for j := 0; j < nu; j++ {
+				u := c18Unknown{Num: rapid.IntRange(6, 40).Draw(t, "unum"), Varint: rapid.Bool().Draw(t, "uvarint")}
+				if u.Varint {
+					u.V = genUint64(t, "uv")
+				} else {
+					u.B = sdsl.Bin(rapid.SliceOfN(rapid.Byte(), 0, 12).Draw(t, "ub"))
+				}
+				it.Unknown = append(it.Unknown, u)
+			}
+		}
 		c.Items = append(c.Items, it)
 	}
 	return c
@@ -117,6 +139,19 @@ func (it c18Item) pb() *pboutput.Item {
 	}
 	if it.HasTS {
 		out.Timestamp = &timestamppb.Timestamp{Seconds: it.Sec, Nanos: it.Nanos}
+	}
+	var raw []byte
+	for _, u := range it.Unknown {
+		if u.Varint {
+			raw = protowire.AppendTag(raw, protowire.Number(u.Num), protowire.VarintType)
+			raw = protowire.AppendVarint(raw, u.V)
+		} else {
+			raw = protowire.AppendTag(raw, protowire.Number(u.Num), protowire.BytesType)
+			raw = protowire.AppendBytes(raw, []byte(u.B))
+		}
+	}
+	if raw != nil {
+		out.ProtoReflect().SetUnknown(raw)
 	}
 	return out
 }
@@ -133,6 +168,8 @@ func itemEq(a, b *pboutput.Item) string {
 		return fmt.Sprintf("cursor %q vs %q", a.Cursor, b.Cursor)
 	case a.Timestamp.GetSeconds() != b.Timestamp.GetSeconds() || a.Timestamp.GetNanos() != b.Timestamp.GetNanos():
 		return fmt.Sprintf("timestamp %v vs %v", a.Timestamp, b.Timestamp)
+	case !bytes.Equal(a.ProtoReflect().GetUnknown(), b.ProtoReflect().GetUnknown()):
+		return fmt.Sprintf("unknown fields %x vs %x", a.ProtoReflect().GetUnknown(), b.ProtoReflect().GetUnknown())
 	}
 	return ""
 }
@@ -231,7 +268,7 @@ func bucketInt(n int) int {
 }
 
 func TestC18Outputs(t *testing.T) {
-	ev.Get("C18", "Outputs").Rule = "rapid: maps of 0..12 (1 in 40: 500..2000) items keyed by block id: block numbers up to 2^64-1, ids and cursors arbitrary valid UTF-8, payload nil/empty/random/large, timestamp nil/negative/huge; MarshalFast->proto.Unmarshal(Array), proto.Marshal(Array)->UnmarshalFast, fast round trip, compared field by field; non-trivial = >=2 items with an empty field and a varint >= 2^32"
+	ev.Get("C18", "Outputs").Rule = "rapid: maps of 0..12 (1 in 40: 500..2000) items keyed by block id: block numbers up to 2^64-1, ids and cursors arbitrary valid UTF-8, payload nil/empty/random/large, timestamp nil/negative/huge, 1 item in 4 with 1..3 fields unknown to the schema; MarshalFast->proto.Unmarshal(Array), proto.Marshal(Array)->UnmarshalFast, fast round trip, compared field by field; non-trivial = >=2 items with an empty field and a varint >= 2^32"
 	ev.Prop(t, "C18", "Outputs", genC18Out, checkC18Out, classifyC18Out)
 }
 
